@@ -74,6 +74,8 @@ def c16_key(feat, mk):
     defect): WHICH error code a program then ends with is accidental, so the code is not part of the key"""
     if feat.startswith('partial-') and mk.startswith('err:'):
         mk = 'err'
+    elif feat.startswith('partial-') and mk.startswith('value'):
+        mk = 'value'
     return 'C16/%s/%s' % (feat, mk)
 
 
